@@ -27,7 +27,7 @@ import numpy as np
 from harness.core import import_cuqi, quiet
 from harness.props import c01
 
-NAME_POOL = c01.NAME_POOL + ["q", "q2", "ln", "rg"]          # ids of variable names on the model side
+NAME_POOL = c01.NAME_POOL + ["q", "q2", "ln", "rg", "p1", "p2", "p3", "p4", "c1", "c2", "c3", "mp"]          # ids of variable names on the model side
 ATTR_KEY_BASE = 100                                            # ids of attribute-named conditioning variables
 FAMS = ["Gaussian", "Normal", "Laplace", "GMRF", "LMRF", "Gamma", "Lognormal", "RegularizedGaussian"]
 
@@ -162,7 +162,9 @@ def snapshot(root, skip_name_of_inner=False):
         if isinstance(o, dict):
             return ("dict", [(repr(k), walk(v, depth + 1)) for k, v in o.items()])
         if isinstance(o, functools.partial):
-            return ("partial", walk(o.func, depth + 1), walk(o.args, depth + 1), walk(o.keywords, depth + 1))
+            # identity and bound keywords of a partial: a partial shared between an original and a copy and later
+            # mutated in place is exactly the aliasing to catch
+            return ("partial", oid, walk(o.func, depth + 1), walk(o.args, depth + 1), walk(dict(o.keywords), depth + 1))
         if isinstance(o, types.MethodType):
             return ("method", o.__func__.__qualname__, walk(o.__self__, depth + 1))
         if isinstance(o, types.FunctionType):
@@ -263,9 +265,11 @@ def _try(f):
         return e
 
 
-def behaviour(cuqi, o, probes):
+def behaviour(cuqi, o, probes, vals=None, maxprod=0):
     """observable behaviour of `o`: names, logd / gradient at the probe points, a seeded sample.
-    `probes` = list of dicts name -> value covering every variable name."""
+    `probes` = list of dicts name -> value covering every variable name.  With `vals` (name -> two candidate
+    values) and at most `maxprod` remaining parameters, logd is evaluated at *every* completion of the remaining
+    parameters (2^k points) instead of the two diagonal probes."""
     from cuqi.model import Model
     out = {}
     L = letter(cuqi, o)
@@ -284,6 +288,9 @@ def behaviour(cuqi, o, probes):
     if isinstance(names, Exception):
         return out
     ev = []
+    if vals is not None and 1 <= len(names) <= maxprod and all(k in vals for k in names):
+        import itertools
+        probes = [dict(zip(names, [vals[k][i] for k, i in zip(names, combo)])) for combo in itertools.product((0, 1), repeat=len(names))]
     for p in probes:
         kw = {k: p[k] for k in names if k in p}
         if len(kw) != len(names):
@@ -385,6 +392,49 @@ class World:
         self.model_probe = [np.array([rng.randint(-2, 2) for _ in range(mdim)], dtype=float) for _ in range(2)]
         self.addr["A"] = len(objs); self.live[len(objs)] = self.A
         objs.append(("A", {"args": "i" + str(len(NAME_POOL) + 5)}))
+        # ---- a factor whose mean is a callable of 3-4 arguments and whose covariance is a callable of 3 (or a constant),
+        #      priors for all of them, and their joint: conditioned step by step, partial upon partial
+        from cuqi.distribution import Gamma
+        km, dm = rng.choice([3, 4]), rng.randint(1, 3)
+        pnames = [f"p{i + 1}" for i in range(km)]
+        cov_fn = rng.random() < 0.6
+        cnames = ["c1", "c2", "c3"] if cov_fn else []
+        M4 = c01._imat(rng, dm, dm)
+        for nm in pnames:
+            a = np.array([rng.randint(-4, 4) / 2.0 for _ in range(dm)]); b = a + rng.choice([0.5, 1.0, -1.5])
+            self.vals[nm] = [a, b]
+        for nm in cnames:
+            self.vals[nm] = [np.array([float(x)]) for x in rng.sample([0.5, 1.0, 2.0, 4.0], 2)]
+        a = np.array([rng.randint(-4, 4) / 2.0 for _ in range(dm)])
+        self.vals["mp"] = [a, a + 1.0]
+
+        def mean_fn(*xs):
+            xs = [np.asarray(x, dtype=float).reshape(-1) for x in xs]
+            out = xs[0] + xs[1] * xs[2]
+            return out + M4 @ xs[3] if len(xs) > 3 else out
+
+        def cov_val(*cs):
+            cs = [float(np.asarray(c).reshape(-1)[0]) for c in cs]
+            return cs[0] * cs[1] + cs[2]
+        cconst = float(rng.choice([0.5, 1.0, 2.0]))
+        with quiet():
+            self.MP = Gaussian(mean=c01._named_lambda(pnames, mean_fn), cov=(c01._named_lambda(cnames, cov_val) if cov_fn else cconst),
+                               geometry=dm, name="mp")
+            pri = [Gaussian(np.zeros(dm), float(rng.choice([1.0, 2.0, 4.0])), geometry=dm, name=nm) for nm in pnames]
+            pri += [Gamma(float(rng.choice([1.0, 2.0, 3.0])), 1.0, geometry=1, name=nm) for nm in cnames]
+            self.J2 = JointDistribution(self.MP, *pri)
+        g = len(objs); objs.append(("g", {}))
+        self.addr["mp"] = len(objs); self.live[len(objs)] = self.MP
+        objs.append(("d", {"fam": "n0", "name": f"n{NAME_POOL.index('mp')}", "geom": f"r{g}",
+                           "s0": "f92/" + ".".join(str(NAME_POOL.index(x)) for x in pnames),
+                           "s1": ("f93/" + ".".join(str(NAME_POOL.index(x)) for x in cnames)) if cov_fn else "n3"}))
+        for nm, d in zip(pnames + cnames, pri):
+            g = len(objs); objs.append(("g", {}))
+            self.addr[nm] = len(objs); self.live[len(objs)] = d
+            objs.append(("d", {"fam": f"n{0 if nm[0] == 'p' else FAMS.index('Gamma')}", "name": f"n{NAME_POOL.index(nm)}", "geom": f"r{g}", "s0": "n1", "s1": "n2"}))
+        self.addr["J2"] = len(objs); self.live[len(objs)] = self.J2
+        objs.append(("J", {"dens": "R" + ".".join(str(self.addr[x]) for x in ["mp"] + pnames + cnames)}))
+        self.mp_args = (pnames, cnames)
         self.objs = objs
         self.n0 = len(objs)
         self.probes = []
@@ -401,7 +451,8 @@ class World:
 
     def desc(self):
         return {"shape": self.shape, "vars": [(v.name, v.family, v.dim, {a: s.parents for a, s in v.attrs.items()}) for v in self.vs],
-                "ln_cond": self.ln_cond, "rg_cond": self.rg_cond, "model_target": self.model_target}
+                "ln_cond": self.ln_cond, "rg_cond": self.rg_cond, "model_target": self.model_target,
+                "mp": {"mean_args": self.mp_args[0], "cov_args": self.mp_args[1]}}
 
 
 def name_id(nm):
@@ -421,6 +472,27 @@ class Program:
         self.ops_txt = []       # model-side op encodings
         self.impl = []          # impl-side records, aligned with ops
         self.ops_desc = []
+
+    maxprod = 2            # completions: every combination of the two candidate values for <= maxprod remaining parameters
+    pool_checks = 3        # derived objects re-checked after every op (None = all)
+
+    def beh(self, o):
+        return behaviour(self.cuqi, o, self.w.probes, self.w.vals, self.maxprod)
+
+    def check_pool(self, k):
+        """siblings / intermediates: derived objects must be what they were when they were returned"""
+        if self.sibling_bad is not None or not self.pool:
+            return
+        items = self.pool if self.pool_checks is None or len(self.pool) <= self.pool_checks else \
+            random.Random(f"{self.idx}-{k}").sample(self.pool, self.pool_checks)
+        for km, o in items:
+            if km == k:
+                continue
+            d = snap_equal(self.made[km][0], snapshot(o))
+            b1 = self.beh(o)
+            if d or b1 != self.made[km][1]:
+                self.sibling_bad = (km, d[:3], {kk: (self.made[km][1].get(kk), b1.get(kk)) for kk in b1 if b1.get(kk) != self.made[km][1].get(kk)}, k)
+                return
 
     # -- references
     def targets(self):
@@ -628,7 +700,8 @@ class Program:
         cuqi, w = self.cuqi, self.w
         origs = w.originals()
         self.snap0 = {lab: snapshot(o) for lab, o in origs}
-        self.beh0 = {lab: behaviour(cuqi, o, w.probes) for lab, o in origs}
+        self.beh0 = {lab: self.beh(o) for lab, o in origs}
+        self.sibling_bad = None
         self.made = {}          # op index -> (snapshot, behaviour) when returned
         self.first_bad = None   # (op index, label, what, detail)
         self.name_bad = []
@@ -667,31 +740,82 @@ class Program:
             if not isinstance(res, Exception) and kind in ("cond", "tolik", "apply") and letter(cuqi, res) != "?":
                 if not any(res is x for _, x in self.pool) and not any(res is x for x in w.live.values()):
                     self.pool.append((k, res))
-                    self.made[k] = (snapshot(res), behaviour(cuqi, res, w.probes))
+                    self.made[k] = (snapshot(res), self.beh(res))
             if check_every_op and self.first_bad is None:
-                self.check_originals(k)
+                # structure of every original after every op; the (costlier) behavioural fingerprint after every op of a
+                # stepwise program, else after every third op, after any op with an escaping write, and at the end
+                self.check_originals(k, behave=(isinstance(self, StepwiseProgram) or k % 3 == 2 or bool(rec["esc"] or rec["benign"])))
+            if check_every_op:
+                self.check_pool(k)
         if self.first_bad is None:
-            self.check_originals(len(self.ops_txt) - 1)
+            self.check_originals(len(self.ops_txt) - 1, full=True)
         # siblings: every derived object is what it was when it was returned
-        self.sibling_bad = None
         for k, o in self.pool:
-            s1, b1 = snapshot(o), behaviour(cuqi, o, w.probes)
+            if self.sibling_bad is not None:
+                break
+            s1, b1 = snapshot(o), self.beh(o)
             d = snap_equal(self.made[k][0], s1)
             if d or b1 != self.made[k][1]:
-                self.sibling_bad = (k, d[:3], {kk: (self.made[k][1].get(kk), b1.get(kk)) for kk in b1 if b1.get(kk) != self.made[k][1].get(kk)})
-                break
+                self.sibling_bad = (k, d[:3], {kk: (self.made[k][1].get(kk), b1.get(kk)) for kk in b1 if b1.get(kk) != self.made[k][1].get(kk)},
+                                    len(self.ops_txt) - 1)
         return self
 
-    def check_originals(self, k):
+    def check_originals(self, k, full=False, behave=True):
+        light = set(self.w.mp_args[0] + self.w.mp_args[1]) if (not full and not isinstance(self, StepwiseProgram)) else ()
         for lab, o in self.w.originals():
+            if lab in light:
+                continue          # the plain priors of the multi-argument factor: re-checked at the end of the program
             d = snap_equal(self.snap0[lab], snapshot(o))
-            b = behaviour(self.cuqi, o, self.w.probes)
+            b = self.beh(o) if (full or behave or d) else self.beh0[lab]
             if d or b != self.beh0[lab]:
                 self.first_bad = (k, lab, d[:3], {kk: (self.beh0[lab].get(kk), b.get(kk)) for kk in b if b.get(kk) != self.beh0[lab].get(kk)})
                 return
 
     def line(self):
         return "prog " + self.w.heap_text() + " " + ";".join(self.ops_txt)
+
+
+class StepwiseProgram(Program):
+    """callables with 3-4 arguments conditioned ONE variable at a time, in random orders, on the factor `mp`, on a
+    likelihood made from it and on the joint `J2`; siblings are created from the same intermediate object with
+    different values; logd / gradient / sample are interleaved on intermediates and siblings.  Every derived object
+    is re-checked after every op, with logd at every completion of up to 4 remaining parameters."""
+    maxprod = 4
+    pool_checks = None
+
+    def __init__(self, cuqi, tracer, rng, thorough, idx, length=None, script=None):
+        super().__init__(cuqi, tracer, rng, thorough, idx, length=length, script=script)
+        if length is None:
+            self.length = rng.randint(9, 15)
+
+    def originals_subset(self):
+        return ["mp", "J2"] + self.w.mp_args[0] + self.w.mp_args[1]
+
+    def choose(self):
+        cuqi, rng, w = self.cuqi, self.rng, self.w
+        roots = [("@%d" % w.addr["mp"], w.live[w.addr["mp"]])] * 2 + [("@%d" % w.addr["J2"], w.live[w.addr["J2"]])]
+        derived = [("$%d" % k, o) for k, o in self.pool]
+        if not any(letter(cuqi, o) == "L" for _, o in derived) and rng.random() < 0.12:
+            k = rng.randint(0, 1)
+            return ("tolik", roots[0][0], roots[0][1], w.vals["mp"][k], k + 1)
+        ref, o = rng.choice(derived * 2 + roots) if derived else rng.choice(roots)
+        L = letter(cuqi, o)
+        names = _try(lambda: list(o.get_parameter_names()))
+        if isinstance(names, Exception) or L in ("?", "A"):
+            return None
+        r = rng.random()
+        if r < 0.62 and names and L != "P":
+            cand = names[:-1] if (L == "d" and len(names) > 1 and rng.random() < 0.85) else names
+            nm = rng.choice(cand)
+            kw, txt = self.kw_for([nm])
+            return ("cond", ref, o, kw, txt) if kw is not None else None
+        if r < 0.86:
+            kw, txt = self.kw_for(names)
+            return ("logd", ref, o, kw, txt) if kw is not None else None
+        if r < 0.94:
+            kw, txt = self.kw_for(names)
+            return ("grad", ref, o, kw, txt) if kw is not None and len(names) == 1 else None
+        return ("sample", ref, o) if L == "d" else None
 
 
 # ============================================================================ shrinking (failing-input search)
@@ -742,19 +866,23 @@ def op_from_text(p, txt, remap, old_index):
     return None
 
 
-def shrink(ctx, p, k, thorough):
-    """smallest sub-program still altering an original: the op and the ops its receiver was derived by; else the prefix"""
+def shrink(ctx, p, k, thorough, also=()):
+    """smallest sub-program still altering an original / a sibling: the op and the ops its receiver (and the altered
+    object) were derived by; else the prefix"""
     def deps(j, acc):
         acc.add(j)
         for r in p.ops_txt[j].split(":")[1:3]:
             if r.startswith("$"):
                 deps(int(r[1:]), acc)
         return acc
-    for subset in (sorted(deps(k, set())), list(range(k + 1))):
+    first = deps(k, set())
+    for j in also:
+        deps(j, first)
+    for subset in (sorted(first), list(range(k + 1))):
         remap = {}
         rng = random.Random(f"C11-{ctx.seed}-{p.idx}")
         try:
-            q = Program(p.cuqi, p.tr, rng, thorough, p.idx,
+            q = type(p)(p.cuqi, p.tr, rng, thorough, p.idx,
                         script=[(lambda prog, j=j: op_from_text(prog, p.ops_txt[j], remap, j)) for j in subset])
             q.run()
         except Exception:  # noqa
@@ -827,12 +955,12 @@ MODEL_BENIGN = {"g._variable_name", "d._mutable_vars", "n._mutable_vars", "r._mu
                 "c._mean", "c.mean", "c._cov", "c.cov", "c._prec", "c._sqrtprec", "c._logdet", "c._rank", "inner._name"}
 
 
-def run_programs(ctx, cuqi, tracer, n, thorough):
+def run_programs(ctx, cuqi, tracer, n, thorough, n_step=0):
     progs = []
-    for idx in range(n):
+    for idx in list(range(n)) + [100000 + i for i in range(n_step)]:
         rng = random.Random(f"C11-{ctx.seed}-{idx}")
         try:
-            p = Program(cuqi, tracer, rng, thorough, idx)
+            p = (StepwiseProgram if idx >= 100000 else Program)(cuqi, tracer, rng, thorough, idx)
         except Exception as e:  # noqa  (world construction refused: not a case)
             ctx.note(f"program {idx} could not be built: {type(e).__name__}: {str(e)[:80]}")
             continue
@@ -855,7 +983,8 @@ def run_programs(ctx, cuqi, tracer, n, thorough):
     hist = {}
     for p, out in zip(progs, outs):
         desc = {"program": p.idx, "graph": p.w.desc(), "ops": p.ops_desc}
-        ctx.case("program:" + p.w.shape, {"program": p.idx, "seed": ctx.seed, "graph": p.w.desc(), "n_ops": len(p.ops_txt)})
+        ctx.case("program:" + ("stepwise" if isinstance(p, StepwiseProgram) else p.w.shape),
+                 {"program": p.idx, "seed": ctx.seed, "graph": p.w.desc(), "n_ops": len(p.ops_txt)})
         for r in p.impl:
             hist[r["kind"][0]] = hist.get(r["kind"][0], 0) + 1
         judge(ctx, p, out, desc)
@@ -895,10 +1024,16 @@ def judge(ctx, p, out, desc):
                  "original unchanged (structure modulo benign caches, logd/gradient/sample/names)",
                  {"structure": sd, "behaviour": bd}, f"op #{k} ({opk} on {recv}) altered the original object '{lab}'")
     if p.sibling_bad is not None:
-        k, sd, bd = p.sibling_bad
-        okey2 = f"sibling:{p.ops_desc[k]['op']}"
-        ctx.fail(okey2, {**desc, "derived_by_op": k}, "derived object unchanged by later ops on other objects",
-                 {"structure": sd, "behaviour": bd}, "a derived object was altered by operations on its siblings / original")
+        k, sd, bd, kalt = p.sibling_bad
+        aop = p.ops_desc[kalt]["op"] if 0 <= kalt < len(p.ops_desc) else "?"
+        okey2 = f"sibling:{aop}:{p.impl[k]['kind'][0] if k < len(p.impl) else '?'}"
+        if okey2 not in ctx.c11_shrunk and 0 <= kalt < len(p.ops_txt):
+            ctx.c11_shrunk[okey2] = shrink(ctx, p, kalt, ctx.tier == "thorough", also=(k,))
+        ctx.fail(okey2, {**desc, "shrunk": ctx.c11_shrunk.get(okey2), "derived_by_op": k, "altered_by_op": kalt,
+                         "altering_op": p.ops_desc[kalt] if 0 <= kalt < len(p.ops_desc) else None},
+                 "derived object unchanged by later ops on other objects (structure incl. partial keywords, conditioning variables, logd at every completion)",
+                 {"structure": sd, "behaviour": bd},
+                 f"the object returned by op #{k} was altered by op #{kalt} ({aop}) on another object (sibling / intermediate aliasing)")
         okey = okey or okey2
     for (k, n0, n1) in p.name_bad[:1]:
         okey3 = f"name:{p.ops_desc[k]['op']}"
@@ -1131,7 +1266,7 @@ def run(ctx):
     tracer.install()
     try:
         n = 150 if not thorough else 150 * ctx.scale
-        run_programs(ctx, cuqi, tracer, n, thorough)
+        run_programs(ctx, cuqi, tracer, n, thorough, n_step=(40 if not thorough else 40 * ctx.scale))
         sampler_scenarios(ctx, cuqi, tracer, thorough)
         deep_chains(ctx, cuqi)
     finally:
